@@ -38,7 +38,9 @@ pub struct Q {
 #[derive(Clone, Debug)]
 pub enum Ev {
     /// delay, src, parses, is-response, id, questions, raw bytes (None = build from the descriptor)
-    D { delay: u64, src: SocketAddr, parses: bool, resp: bool, id: u16, qs: Vec<Q>, raw: Option<Vec<u8>> },
+    /// `hdr`: the whole flags word of the header (QR opcode AA TC RD RA Z AD CD rcode) when the datagram is
+    /// built from the descriptor; None = 0x8180 / 0x0100
+    D { delay: u64, src: SocketAddr, parses: bool, resp: bool, id: u16, qs: Vec<Q>, raw: Option<Vec<u8>>, hdr: Option<u16> },
     E { delay: u64 },
 }
 
@@ -160,15 +162,16 @@ fn parse_qs(s: &str) -> Option<Vec<Q>> {
 pub fn ev_tok(e: &Ev) -> String {
     match e {
         Ev::E { delay } => format!("E;{delay}"),
-        Ev::D { delay, src, parses, resp, id, qs, raw } => format!(
-            "D;{};{};{};{};{};{};{}",
+        Ev::D { delay, src, parses, resp, id, qs, raw, hdr } => format!(
+            "D;{};{};{};{};{};{};{}{}",
             delay,
             addr_tok(src),
             b(*parses),
             b(*resp),
             id,
             qs_tok(qs),
-            raw.as_ref().map(|r| format!("={}", if r.is_empty() { String::new() } else { hex(r) })).unwrap_or_else(|| "-".into())
+            raw.as_ref().map(|r| format!("={}", if r.is_empty() { String::new() } else { hex(r) })).unwrap_or_else(|| "-".into()),
+            hdr.map(|h| format!(";h{h:04x}")).unwrap_or_default()
         ),
     }
 }
@@ -177,7 +180,7 @@ fn parse_ev(s: &str) -> Option<Ev> {
     let p: Vec<&str> = s.split(';').collect();
     match p.as_slice() {
         ["E", d] => Some(Ev::E { delay: d.parse().ok()? }),
-        ["D", d, a, pa, r, i, q, raw] => Some(Ev::D {
+        ["D", d, a, pa, r, i, q, raw] | ["D", d, a, pa, r, i, q, raw, _] => Some(Ev::D {
             delay: d.parse().ok()?,
             src: parse_addr(a)?,
             parses: match *pa { "1" => true, "0" => false, _ => return None },
@@ -185,6 +188,10 @@ fn parse_ev(s: &str) -> Option<Ev> {
             id: i.parse().ok()?,
             qs: parse_qs(q)?,
             raw: if *raw == "-" { None } else { let h = raw.strip_prefix('=')?; Some(if h.is_empty() { vec![] } else { unhex(h)? }) },
+            hdr: match p.get(8) {
+                None => None,
+                Some(h) => Some(u16::from_str_radix(h.strip_prefix('h')?, 16).ok()?),
+            },
         }),
         _ => None,
     }
@@ -306,9 +313,15 @@ pub fn parse_case(t: &[&str]) -> Option<UdpCase> {
 // wire bytes of a scripted datagram (hand-encoded, uncompressed: exactly the descriptor)
 
 pub fn encode_dgram(id: u16, resp: bool, qs: &[Q], marker: u32) -> Vec<u8> {
+    encode_dgram_hdr(id, resp, qs, marker, None)
+}
+
+/// `hdr`: the flags word; its QR bit decides whether the marker answer is appended
+pub fn encode_dgram_hdr(id: u16, resp: bool, qs: &[Q], marker: u32, hdr: Option<u16>) -> Vec<u8> {
+    let resp = hdr.map(|h| h & 0x8000 != 0).unwrap_or(resp);
     let mut v = vec![];
     v.extend_from_slice(&id.to_be_bytes());
-    v.extend_from_slice(&(if resp { 0x8180u16 } else { 0x0100u16 }).to_be_bytes());
+    v.extend_from_slice(&hdr.unwrap_or(if resp { 0x8180u16 } else { 0x0100u16 }).to_be_bytes());
     v.extend_from_slice(&(qs.len() as u16).to_be_bytes());
     v.extend_from_slice(&(if resp { 1u16 } else { 0u16 }).to_be_bytes());
     v.extend_from_slice(&[0, 0, 0, 0]);
@@ -574,10 +587,10 @@ fn marker(t: usize, j: usize) -> u32 {
 pub fn dgram_bytes(t: usize, j: usize, e: &Ev) -> Option<(Vec<u8>, SocketAddr)> {
     match e {
         Ev::E { .. } => None,
-        Ev::D { src, resp, id, qs, raw, .. } => Some((
+        Ev::D { src, resp, id, qs, raw, hdr, .. } => Some((
             match raw {
                 Some(r) => r.clone(),
-                None => encode_dgram(*id, *resp, qs, marker(t, j)),
+                None => encode_dgram_hdr(*id, *resp, qs, marker(t, j), *hdr),
             },
             *src,
         )),
